@@ -243,7 +243,7 @@ func waitFor(cond func() bool, d time.Duration, conns ...*wire.Conn) bool {
 
 func main() {
 	c := vk.Init("C04")
-	c.Rule("scenario i: 1..200 well-formed messages (any MsgType, 30..70000 bytes incl. single fields of 4000..70000 bytes, values containing '10=', fields 110/210/1010/9910) are concatenated and cut into read chunks by one of 13 strategies (all-in-one, one byte per read, random, message-aligned, coalescing, and a boundary at every offset 0..7 of every message's trailing CheckSum field), with feed timing {none, Gosched, 1 ms pauses}; delivered to (a) an Initiator with a recording handler that asserts one ServeIncoming at a time, (b) an Initiator with DefaultHandler + incoming callbacks, (c) an Acceptor with 1..8 simultaneous connections (arriving one at a time or all back to back before any handler exists) through the real handler factory, each message tagged (connection, counter); buffer sizes {0,1,10}. Outbound: 1..4 goroutines hand unique messages to Send/SendRaw; the peer-side capture is split by the reference splitter. Oracle: per connection delivered == sent (bytes, order, multiplicity), nothing from another connection, outbound stream == hand-off order (order seen by an outgoing ALL-handler under the handler's own lock; per-goroutine order for SendRaw). Replying handlers: 2..10 messages in one read, each answered with SendRaw from inside the incoming handler (buffers 0/1/10, both roles): all delivered, all answers on the wire in order. Long pauses: 3..6 messages whose stream stops for 0.7..1.3 s inside a value, inside the CheckSum tag or value, between fields or between messages (the scripted connection honours read deadlines, should the library set any). Re-sent object: one generated message object handed to Send 3..14 times with changed content against an instantly or slowly reading peer; the stream must carry each hand-off as it was when handed off. Write fault: 2..11 messages handed to SendRaw in order while one write takes only part of its message (cut anywhere, or inside the CheckSum field) and runs into a 30 ms write deadline, later writes being accepted: the captured stream must stay a prefix of the hand-offs. distinct = hash(partition signature, messages); non-trivial = >=2 messages or a boundary inside a CheckSum field")
+	c.Rule("scenario i: 1..200 well-formed messages (any MsgType, 30..70000 bytes incl. single fields of 4000..70000 bytes, values containing '10=', fields 110/210/1010/9910) are concatenated and cut into read chunks by one of 13 strategies (all-in-one, one byte per read, random, message-aligned, coalescing, and a boundary at every offset 0..7 of every message's trailing CheckSum field), with feed timing {none, Gosched, 1 ms pauses}; delivered to (a) an Initiator with a recording handler that asserts one ServeIncoming at a time, (b) an Initiator with DefaultHandler + incoming callbacks, (c) an Acceptor with 1..8 simultaneous connections (arriving one at a time or all back to back before any handler exists) through the real handler factory, each message tagged (connection, counter); buffer sizes {0,1,10}. Outbound: 1..4 goroutines hand unique messages to Send/SendRaw; the peer-side capture is split by the reference splitter. Oracle: per connection delivered == sent (bytes, order, multiplicity), nothing from another connection, outbound stream == hand-off order (order seen by an outgoing ALL-handler under the handler's own lock; per-goroutine order for SendRaw). Truncated predecessor: a connection ends after some complete fields of a message, then a new connection (new initiator, or next client of the same acceptor) is sent 1..4 messages and must be given exactly those. Replying handlers: 2..10 messages in one read, each answered with SendRaw from inside the incoming handler (buffers 0/1/10, both roles): all delivered, all answers on the wire in order. Long pauses: 3..6 messages whose stream stops for 0.7..1.3 s inside a value, inside the CheckSum tag or value, between fields or between messages (the scripted connection honours read deadlines, should the library set any). Re-sent object: one generated message object handed to Send 3..14 times with changed content against an instantly or slowly reading peer; the stream must carry each hand-off as it was when handed off. Write fault: 2..11 messages handed to SendRaw in order while one write takes only part of its message (cut anywhere, or inside the CheckSum field) and runs into a 30 ms write deadline, later writes being accepted: the captured stream must stay a prefix of the hand-offs. distinct = hash(partition signature, messages); non-trivial = >=2 messages or a boundary inside a CheckSum field")
 	n := c.Pick(3000, 60000)
 	vk.Parallel(n, runtime.NumCPU(), func(i int) {
 		r := c.Rand("c04", int64(i))
@@ -544,6 +544,116 @@ func main() {
 			c.Sample(desc)
 		}
 	})
+	// a connection that ends in the middle of a message (some complete fields of it received), followed by a new
+	// connection in the same process: the new connection's handler gets exactly what its own peer sends
+	npt := c.Pick(80, 1500)
+	vk.Parallel(npt, runtime.NumCPU(), func(i int) {
+		r := c.Rand("c04-predecessor", int64(i))
+		buf := []int{0, 1, 10}[r.Intn(3)]
+		mode := []string{"initiator", "acceptor"}[i%2]
+		first := [][]byte{randMsg(r, "pre-0"), randMsg(r, "pre-1")}
+		for len(first[1]) > 1500 {
+			first[1] = randMsg(r, "pre-1")
+		}
+		// cut the second message right behind one of its inner field delimiters
+		var sohs []int
+		for k, b := range first[1][:len(first[1])-8] {
+			if b == 1 {
+				sohs = append(sohs, k)
+			}
+		}
+		if len(sohs) < 2 {
+			return
+		}
+		cut := sohs[1+r.Intn(len(sohs)-1)] + 1
+		nmsg := 1 + r.Intn(4)
+		var sent [][]byte
+		var stream []byte
+		for k := 0; k < nmsg; k++ {
+			m := randMsg(r, fmt.Sprintf("succ-%d", k))
+			sent = append(sent, m)
+			stream = append(stream, m...)
+		}
+		desc := fmt.Sprintf("predecessor-truncated %s buf=%d: an earlier connection ended after %d bytes of its second message; the next connection is sent %d messages", mode, buf, cut, nmsg)
+		replay := map[string]interface{}{"scenario": desc, "index": i, "seed": c.Seed}
+		var mu sync.Mutex
+		var got [][]byte
+		second := false
+		record := func(m []byte) bool {
+			mu.Lock()
+			if second {
+				got = append(got, append([]byte(nil), m...))
+			}
+			mu.Unlock()
+			return true
+		}
+		connA, connB := wire.NewConn("c04pa", false), wire.NewConn("c04pb", false)
+		if mode == "initiator" {
+			for k, conn := range []*wire.Conn{connA, connB} {
+				h := simplefixgo.NewInitiatorHandler(context.Background(), "35", buf)
+				h.HandleIncoming(simplefixgo.AllMsgTypes, record)
+				ini := simplefixgo.NewInitiator(conn, h, buf, 5*time.Second)
+				done := make(chan struct{})
+				go func() { ini.Serve(); close(done) }()
+				if k == 0 {
+					conn.Feed(append(append([]byte(nil), first[0]...), first[1][:cut]...))
+					time.Sleep(2 * time.Millisecond)
+					conn.FeedEOF()
+					select {
+					case <-done:
+					case <-time.After(5 * time.Second):
+					}
+					ini.Close()
+					h.Stop()
+					mu.Lock()
+					second = true
+					mu.Unlock()
+					continue
+				}
+				conn.Feed(stream)
+				waitFor(func() bool { mu.Lock(); defer mu.Unlock(); return len(got) >= nmsg }, 4*time.Second, conn)
+				ini.Close()
+				h.Stop()
+				conn.Close()
+				select {
+				case <-done:
+				case <-time.After(5 * time.Second):
+				}
+			}
+		} else {
+			lst := wire.NewListener()
+			acc := simplefixgo.NewAcceptor(lst, simplefixgo.NewAcceptorHandlerFactory("35", buf), 5*time.Second, func(h simplefixgo.AcceptorHandler) {
+				h.HandleIncoming(simplefixgo.AllMsgTypes, record)
+			})
+			done := make(chan struct{})
+			go func() { acc.ListenAndServe(); close(done) }()
+			lst.Connect(connA)
+			connA.Feed(append(append([]byte(nil), first[0]...), first[1][:cut]...))
+			time.Sleep(2 * time.Millisecond)
+			connA.FeedEOF()
+			waitFor(func() bool { cl, _ := connA.Closed(); return cl }, 3*time.Second)
+			mu.Lock()
+			second = true
+			mu.Unlock()
+			lst.Connect(connB)
+			connB.Feed(stream)
+			waitFor(func() bool { mu.Lock(); defer mu.Unlock(); return len(got) >= nmsg }, 4*time.Second, connB)
+			acc.Close()
+			connB.Close()
+			select {
+			case <-done:
+			case <-time.After(5 * time.Second):
+			}
+		}
+		time.Sleep(2 * time.Millisecond)
+		mu.Lock()
+		g2 := append([][]byte(nil), got...)
+		mu.Unlock()
+		c.Eval(vk.Hash64([]byte(desc), []byte{byte(i), byte(i >> 8)}), true)
+		c.Count("connections_after_a_truncated_predecessor", 1)
+		compare(c, "inbound/after-a-truncated-predecessor/"+mode, sent, g2, replay)
+	})
+
 	// handlers that answer from inside the incoming callback (as the session layer does) while the peer pipelines
 	// several messages in one read: both directions of a connection must keep moving independently
 	nrep := c.Pick(90, 1800)
